@@ -150,6 +150,32 @@ def assert_histogram(ctx: Ctx, h, case, ps_expected=None):
     tol2 = _tol(wkind, dt, n + 8, mass2)
     if dt.name == "float32":
         tol2 = max(tol2, (n + 16) * 2.0 ** -23 * mass2)
+    # per-bin tolerances: a bin holds the sum of *its* weights, so its rounding error scales with the weight in that bin
+    # (not with the weight elsewhere in the histogram)
+    bin_mass = [0.0] * len(ps)
+    bin_mass2 = [0.0] * len(ps)
+    bin_n = [0] * len(ps)
+    out_mass = {"under": 0.0, "over": 0.0}
+    for k_, v_ in enumerate(data):
+        if math.isnan(v_):
+            continue
+        w_ = 1.0 if weights is None else float(F(weights[k_]))
+        i_ = model.locate(ps, v_)
+        if isinstance(i_, int) and 0 <= i_ < len(ps):
+            bin_mass[i_] += abs(w_)
+            bin_mass2[i_] += w_ * w_
+            bin_n[i_] += 1
+        elif i_ == -1:
+            out_mass["under"] += abs(w_)
+        elif i_ == len(ps):
+            out_mass["over"] += abs(w_)
+    tols = [min(tol, _tol(wkind, dt, bin_n[i], bin_mass[i])) for i in range(len(ps))]
+    tols2 = [min(tol2, max(_tol(wkind, dt, bin_n[i] + 8, bin_mass2[i]), (bin_n[i] + 16) * 2.0 ** -23 * bin_mass2[i] if dt.name == "float32" else 0.0)) for i in range(len(ps))]
+    for i in range(len(ps)):
+        require(model.close(h.frequencies[i], m["freq"][i], tols[i]), "frequency_bin",
+                lambda: f"bin {i} {ps[i]}: got {h.frequencies[i]!r} want {float(m['freq'][i])!r} (tolerance for the weight in this bin {tols[i]})")
+        require(model.close(h.errors2[i], m["err2"][i], tols2[i]), "errors2_bin",
+                lambda: f"bin {i} {ps[i]}: got {h.errors2[i]!r} want {float(m['err2'][i])!r} (tolerance for the weight in this bin {tols2[i]})")
     for i in range(len(ps)):
         require(model.close(h.frequencies[i], m["freq"][i], tol), "frequency",
                 lambda: f"bin {i} {ps[i]}: got {h.frequencies[i]!r} want {float(m['freq'][i])!r} (tol {tol})")
@@ -165,8 +191,8 @@ def assert_histogram(ctx: Ctx, h, case, ps_expected=None):
         require(math.isnan(float(h.underflow)) and math.isnan(float(h.overflow)), "gapped_underflow_not_unknown",
                 f"underflow={h.underflow} overflow={h.overflow} bins={ps}")
     else:
-        require(model.close(h.underflow, m["under"], tol), "underflow", f"{h.underflow} vs {float(m['under'])}")
-        require(model.close(h.overflow, m["over"], tol), "overflow", f"{h.overflow} vs {float(m['over'])}")
+        require(model.close(h.underflow, m["under"], min(tol, _tol(wkind, dt, n, out_mass["under"]))), "underflow", f"{h.underflow} vs {float(m['under'])}")
+        require(model.close(h.overflow, m["over"], min(tol, _tol(wkind, dt, n, out_mass["over"]))), "overflow", f"{h.overflow} vs {float(m['over'])}")
         acc = F(h.total) + F(h.underflow) + F(h.overflow)
         require(abs(acc - m["total_in"]) <= Fraction(3 * tol), "accounting",
                 f"total+under+over={float(acc)} input weight={float(m['total_in'])}")
@@ -290,6 +316,9 @@ def explicit_cases(draw, tier="quick"):
     allow_nan = draw(st.sampled_from([False, False, True]))
     data = draw(gen.values_for(ps, 0, 60 if tier == "thorough" else 40, allow_nan=allow_nan))
     wkind, weights = draw(gen.weights_for(len(data)))
+    if wkind == "float" and draw(st.integers(0, 2)) == 0:
+        # weights of very different magnitude: a heavy entry must not wipe out the light ones in *other* bins
+        weights = [draw(st.sampled_from([1e8, 2.0 ** 60, 0.5, 0.25, 1.25, 1e-3, 3.0])) for _ in weights]
     wdtype = None
     if wkind == "int" and draw(st.integers(0, 2)) == 0:
         # integer weights stored in a narrow type whose sums / squares leave that type
